@@ -29,6 +29,11 @@ type pipeNode struct {
 
 	// The index of the current value - will be -1 if nothinghas been read yet
 	docIndex int
+
+	// The number of fields of the documents yielded, if not zero. It is set by a reader whose
+	// mapping differs from the one of the source (a group member selection with its own
+	// sub-selections or aggregates).
+	fieldCount int
 }
 
 func newPipeNode(docMap *core.DocumentMapping) pipeNode {
@@ -79,5 +84,10 @@ func (n *pipeNode) Next() (bool, error) {
 	// for example: when rendering
 	doc := n.docs.At(n.docIndex)
 	n.currentValue = doc.Clone()
+	if n.fieldCount != 0 && len(n.currentValue.Fields) != n.fieldCount {
+		fields := make(core.DocFields, n.fieldCount)
+		copy(fields, n.currentValue.Fields)
+		n.currentValue.Fields = fields
+	}
 	return true, nil
 }
